@@ -412,6 +412,11 @@ def run_history(ctx, hist):
         if not ok and i == len(hist) - 1:
             return False, None
     key = canon(w)
+    if hist and hist[-1][0] == "set" and hist[-1][3] == 2 and \
+            any(d[1] == "pz" for (_s, d) in w.edges):
+        # a partner refused the value: what a refusal leaves behind (locks)
+        # is not in the canonical state, so the history is kept apart
+        key = (key, "refused")
     if hist and hist[-1][0] in ("sync", "unsync", "gc"):
         # probe: one more change on every attribute of every live object
         # (checks convergence / isolation one step beyond the depth bound)
